@@ -21,7 +21,7 @@ from cfold import Folder, Num, NotConstant
 
 F = featlib.repo_path
 FILES = "|".join([F("kernel/space/"), F("kernel/trafo/"), F("kernel/shape.hpp"), F("kernel/eval_tags.hpp"),
-                  F("kernel/util/tiny_algebra.hpp"), F("kernel/geometry/intern/face_index_mapping.hpp")])
+                  F("kernel/util/tiny_algebra.hpp"), F("kernel/geometry/intern/face_index_mapping.hpp"), "/verif/tu/c15_"])
 
 # accessor contract (DESIGN A.2): IndexSet / VertexSet subscripts are pure element accessors, the mesh /
 # trafo getters return sub-objects; get_num_entities(d) is the opaque entity count N[d]
@@ -465,7 +465,7 @@ def analyse(ck, facts, tier, covered, not_covered, primary=True):
     layouts = {}
     dm_classes = {}
     for f in facts.functions:
-        m = re.match(r"^FEAT::Space::(DofMappingUniform|DofMappingSingleEntity)<(FEAT::Space::\w+::Element<.*?>>>(?:, FEAT::Space::Discontinuous::Variant::\w+<\d>>)?), ", f.cls)
+        m = re.match(r"^FEAT::Space::(DofMappingUniform|DofMappingSingleEntity|DofMappingIdentity)<(FEAT::Space::\w+::Element<.*?>>>(?:, FEAT::Space::Discontinuous::Variant::\w+<\d>>)?), ", f.cls)
         if m and f.tk != "pattern":
             dm_classes.setdefault(f.cls, {"kind": m.group(1), "space": m.group(2), "m": {}})["m"].setdefault(f.name, []).append(f)
     for cls, info in sorted(dm_classes.items()):
@@ -493,7 +493,9 @@ def analyse(ck, facts, tier, covered, not_covered, primary=True):
                     if len(p) == 2 and isinstance(p[1], int) and p[0] != "_cell_index":
                         idx[p[1]] = v
             else:
-                ctor = [g for g in meths.get("DofMappingSingleEntity", []) if g.d.get("ctor")]
+                if info["kind"] == "DofMappingSingleEntity" and "get_index" not in meths:
+                    continue   # the codim-0 specialisation only forwards to DofMappingIdentity (analysed as such)
+                ctor = [g for g in meths.get(info["kind"], []) if g.d.get("ctor")]
                 base_prep = [g for g in facts.find(name="prepare") if g.cls == "FEAT::Space::DofMappingBase<" + sp + ">"]
                 if not ctor or "get_index" not in meths or "get_num_local_dofs" not in meths or not base_prep:
                     raise NotClosedForm("constructor/get_index/get_num_local_dofs/DofMappingBase::prepare not instantiated")
